@@ -703,20 +703,16 @@ OPEN_REWRITES = {
     'R02-1': 'validation loop of inverse_intern with enumerate().all(..) and a continue guard: R01.4 finite-slots / R02.2 verify-all-rows read the flag-and-break form',
     'R02-4': 'rows 4..7 of the candidate table generated in a loop from rows 0..3: the table is read from one array aggregate',
     'R03-2': 'forward_with_joint_poses as a table of (offset, axis, angle) and a loop filling [Pose; 6]: R03.1/R03.2 read the six chained products',
-    'R04-2': 'comparator of sort_by_closeness through an inner `cost` closure: R04.4 reads the cost expression inside the comparator',
     'R04-3': 'near-normaliser as a value-returning fn applied through array::from_fn: role and call sites are read as fn(&mut f64, f64)',
     'R06-2': 'normalisation of J1..J5 in a helper returning Option<Joints>: R01.4/R02.2 read the in-place loop',
     'R06-4': 'YAML/URDF loaders destructure and rebuild the sign array, dof by match: R06.5, R19.3, R20.4 read the in-place assignment',
     'R07-3': 'URDF limits through a NO_LIMITS constant and destructuring assignment: R20.2/R20.4/R06.5 read the field stores',
     'R09-2': 'LinearAxis::forward writes the distance into a zeroed [f64; 3] at index axis: R09.5 reads the three match arms',
-    'R09-3': 'the four Frame inverse entry points through solve_unframed(tcp, |robot, pose| ..): the inner call sits in a closure handed to a helper',
     'R12-1': 'pose list built from an anchor list walked with windows(2): R12.5 reads the push sites of LAND / TRACE / PARK',
     'R12-2': 'flags of a Cartesian extension by split_last + extend, RRT gap by find_map: R12.5 reads the per-item flag choice',
     'R13-2': 'ancestor walk by iter::successors, path assembly by rev().chain().collect(), orientation tested on the other tree: R13.3 reads the two walks, reverse and append',
     'R15-4': 'Jacobian columns as [Vector6; 6] from array::from_fn assembled with from_columns: R15.1 reads the (position, rotation) pair and the two copy_from',
-    'R16-4': 'Parallelogram through inverse_with(|robot| ..) / forward_with(qs, |robot, joints| ..): the inner call sits in a closure handed to a helper',
     'R17-2': 'source and target bases through orthonormal_basis(o, x, y) -> Option<Matrix3> and ok_or_else(..)?: R17.1/R17.2 read the two column triples',
-    'R17-4': 'as R04-2 (cost closure inside the comparator)',
     'R20-1': 'axis sign and offset readers match the first two items of a filtered iterator, xyz destructured by a slice pattern: R20.7 reads filter/map/len() == 1 (see also K103), the census the indexed form',
     'R20-2': 'collect_joints with a first_child_named helper, early continue for non-joints, JointData built once from temporaries: R20.2/R20.5/R20.7 read the in-place form',
     'R20-3': 'populate_opw_parameters over names.iter().enumerate() with a zero-based match and unreachable!(): R20.4 reads the arms of `match j + 1`',
